@@ -176,7 +176,13 @@ func hasOr(f *F) bool {
 // first index on the first order key.
 func (r *runner) chosenIndex(q Query) (int, bool) {
 	mentioned := map[string]bool{}
-	walkLeaves(q.Filter, false, func(l *F, _ bool) { mentioned[leafKey(l)] = true })
+	walkLeaves(q.Filter, false, func(l *F, _ bool) {
+		// the planner walks the filter down to scalar operands: an empty _in/_nin list has none
+		if (l.Cmp == "_in" || l.Cmp == "_nin") && len(l.Vals) == 0 {
+			return
+		}
+		mentioned[leafKey(l)] = true
+	})
 	best := -1
 	for i, ix := range r.c.Idx {
 		if !r.exists[i] {
@@ -435,6 +441,9 @@ func (r *runner) compare(qi int, q Query) *hx.Failure {
 		return nil
 	}
 	if !ra.OK() {
+		if sig := r.diagnoseScanError(q, ra); sig != "" {
+			return hx.Failf(sig, "only the indexed twin answers with an error %v (it evaluates the filter on other documents than the twin): %s", ra.Errors, ctx())
+		}
 		if sig := r.diagnoseIndexError(q, ra, leaves); sig != "" {
 			return hx.Failf(sig, "only the indexed twin answers with an error %v: %s", ra.Errors, ctx())
 		}
@@ -516,7 +525,8 @@ func (r *runner) compare(qi int, q Query) *hx.Failure {
 				// in the plan of the twin without indexes, and of the indexed twin unless the index
 				// supplies the order
 				sig = sigScanOrderLaterKey
-			case !okA && okB && q.ShowDeleted && d.empty() && sortedWithoutDeleted(rowsA, q.Order):
+			case !okA && q.ShowDeleted && d.empty() && sortedWithoutDeleted(rowsA, q.Order) && r.indexProvidesOrder(q) &&
+				(okB || (len(q.Order) > 1 && sortedByKeys(rowsB, q.Order, 1))):
 				// deleted documents are appended by a second fetcher; with the order node dropped
 				// (index order) the concatenation is not sorted
 				sig = sigShowDeletedOrder
@@ -683,12 +693,54 @@ func (r *runner) compositeArrayFields(q Query) []FieldDef {
 			continue
 		}
 		for _, f := range ix.Fields {
-			if fd := fdef(f.F); fd.Arr {
+			if fd := fdef(f.F); fd.Arr || fd.Kind == "json" {
 				out = append(out, fd)
 			}
 		}
 	}
 	return out
+}
+
+// entryValues counts the index values a multi-valued field yields: distinct elements of an
+// array, leaves of a JSON value (null array / unset: none).
+func entryValues(fd FieldDef, v any) int {
+	if fd.Arr {
+		arr, ok := v.([]any)
+		if !ok {
+			return 0
+		}
+		distinct := map[string]bool{}
+		for _, e := range arr {
+			distinct[hx.Canon(e)] = true
+		}
+		return len(distinct)
+	}
+	var leaves func(v any) int
+	leaves = func(v any) int {
+		switch x := v.(type) {
+		case map[string]any:
+			n := 0
+			for _, e := range x {
+				n += leaves(e)
+			}
+			return n
+		case []any:
+			n := 0
+			for _, e := range x {
+				switch e.(type) {
+				case map[string]any, []any:
+				default:
+					n++
+				}
+			}
+			return n
+		}
+		return 1
+	}
+	if v == nil {
+		return 0
+	}
+	return leaves(v)
 }
 
 func (r *runner) explainMissing(q Query, missing []map[string]any, driving []*F) string {
@@ -704,7 +756,7 @@ func (r *runner) explainMissing(q Query, missing []map[string]any, driving []*F)
 	// empty: whatever the query, such documents cannot come out of that index
 	if afs := r.compositeArrayFields(q); len(afs) > 0 && every(func(row map[string]any) bool {
 		for _, fd := range afs {
-			if emptyOrNullArray(row[fd.selName()]) {
+			if entryValues(fd, row[fd.selName()]) == 0 {
 				return true
 			}
 		}
@@ -714,12 +766,16 @@ func (r *runner) explainMissing(q Query, missing []map[string]any, driving []*F)
 	}
 	// a condition on the related document that also holds for "no related document" (_ne, _nin, ...):
 	// the join is inverted when an index exists and then starts from the related documents
-	relLeaf := false
+	relNe := false
 	walkLeaves(q.Filter, false, func(l *F, underNot bool) {
-		relLeaf = relLeaf || (fdef(l.Field).Kind == "rel" && len(l.Path) > 0 && !underNot)
+		relNe = relNe || (fdef(l.Field).Kind == "rel" && len(l.Path) > 0 && !underNot && l.Cmp == "_ne")
 	})
-	if relLeaf && every(func(row map[string]any) bool { return row["owner_id"] == nil }) {
-		return sigRelNullOwner
+	ownerIndexed := r.c.UIndex
+	for i, ix := range r.c.Idx {
+		ownerIndexed = ownerIndexed || (r.exists[i] && ix.Fields[0].F == "owner")
+	}
+	if relNe && ownerIndexed {
+		return sigRelNe
 	}
 	chosen, hasChosen := r.chosenIndex(q)
 	// _in with null on a unique index: the null is looked up as an exact key, but entries with a
@@ -811,18 +867,20 @@ func (r *runner) explainExtra(q Query, extra []map[string]any) string {
 
 func (r *runner) explainDuplicated(q Query, dup []map[string]any, driving []*F) string {
 	// _in with a repeated list element: the row comes back once per repetition
-	for _, l := range driving {
-		if l.Cmp != "_in" {
-			continue
+	inDup := false
+	walkLeaves(q.Filter, false, func(l *F, underNot bool) {
+		if l.Cmp != "_in" || underNot {
+			return
 		}
 		seen := map[string]bool{}
 		for _, v := range l.Vals {
 			k := hx.Canon(r.resolve(v))
-			if seen[k] {
-				return sigInDuplicates
-			}
+			inDup = inDup || seen[k]
 			seen[k] = true
 		}
+	})
+	if inDup {
+		return sigInDuplicates
 	}
 	// a composite index with an array field read without any condition (order only): one row per entry
 	if afs := r.compositeArrayFields(q); len(afs) > 0 && q.Filter == nil {
@@ -830,13 +888,7 @@ func (r *runner) explainDuplicated(q Query, dup []map[string]any, driving []*F) 
 		for _, row := range dup {
 			some := false
 			for _, fd := range afs {
-				if arr, ok := row[fd.selName()].([]any); ok {
-					distinct := map[string]bool{}
-					for _, e := range arr {
-						distinct[hx.Canon(e)] = true
-					}
-					some = some || len(distinct) > 1
-				}
+				some = some || entryValues(fd, row[fd.selName()]) > 1
 			}
 			all = all && some
 		}
@@ -850,7 +902,7 @@ func (r *runner) explainDuplicated(q Query, dup []map[string]any, driving []*F) 
 // diagnoseScanError: a JSON path condition errors on the scan path when some document's
 // JSON value is not an object.
 func (r *runner) diagnoseScanError(q Query, rb hx.Result) string {
-	if !strings.Contains(rb.Err(), "field or alias not found") && !strings.Contains(rb.Err(), "not found") {
+	if !strings.Contains(rb.Err(), "field or alias not found") {
 		return ""
 	}
 	hasPath := false
@@ -863,9 +915,6 @@ func (r *runner) diagnoseScanError(q Query, rb hx.Result) string {
 		return ""
 	}
 	for _, d := range r.docs {
-		if d.Deleted && !q.ShowDeleted {
-			continue
-		}
 		if v := d.Vals["j"]; v != nil {
 			if _, ok := v.(map[string]any); !ok {
 				return sigJSONPathScanErr
